@@ -31,7 +31,10 @@ def call_work(inp):
     def call():
         try:
             with quiet():
-                out = f(inp["winner"], F(*inp["tally"]), list(prof.ballots) if inp.get("aslist") else prof.ballots, inp["thr"])
+                tl = F(*inp["tally"])
+                if inp.get("tally_kind") in ("int", "float") and tl.denominator == 1:
+                    tl = int(tl) if inp["tally_kind"] == "int" else float(tl)      # the documented type of the tally is Fraction or float
+                out = f(inp["winner"], tl, list(prof.ballots) if inp.get("aslist") else prof.ballots, inp["thr"])
             return json.dumps(bag_json(PreferenceProfile(ballots=tuple(out)))), ""
         except Exception as ex:  # noqa
             return "[]", type(ex).__name__
@@ -70,7 +73,7 @@ def call_corpus(tier, seed):
             ths = list(range(1, int(tally) + 1))
             for thr in (ths if len(ths) <= 3 else rng.sample(ths, 3)):
                 inputs.append({"op": op, "cands": cands, "ballots": ballots, "winner": w, "tally": rat(tally), "thr": thr,
-                               "aslist": rng.random() < 0.5, "seed": rng.randrange(10**6)})
+                               "aslist": rng.random() < 0.5, "seed": rng.randrange(10**6), "tally_kind": rng.choice(["frac", "frac", "int", "float"])})
 
     c3 = ["A", "B", "C"]
     rk3 = D.untied_rankings(c3)
@@ -218,7 +221,13 @@ def run(tier, seed, replay=None):
     for t in traces:
         if F(*t["tally"]) > t["thr"] or any(len(b["r"]) == 1 and b["r"][0] == [t["winner"]] for b in t["bag"]):
             res.nontrivial.add(json.dumps([t["op"], t["bag"], t["winner"], t["thr"]]))
-    judge_calls(res, PID, "TransferTrace", traces, what="transfer call disagrees with the statement", inexact_is_violation=False)
+    def small_exact(t):
+        """a fractional transfer of a few small rational ballots with an exact (Fraction) tally: every correct weight is a small rational,
+        so a logged value outside TLC's range is an *inexact* one (e.g. a float that slipped into the transfer value)"""
+        nums = [x for b in t["bag"] for x in b["w"]] + list(t["tally"])
+        return t["op"] == "fractional" and not t.get("big") and t["_inp"].get("tally_kind", "frac") == "frac" and max(nums) <= 30 \
+            and max([b["w"][1] for b in t["bag"]] + [t["tally"][1]]) <= 4
+    judge_calls(res, PID, "TransferTrace", traces, what="transfer call disagrees with the statement", inexact_is_violation=small_exact)
     if not replay:
         wide_transfer(res, tier, seed)
     etr = EL.record_corpus(elects)
